@@ -21,6 +21,10 @@
 //           body=<ok|gzip|zstd|readerr|badgzip|truncgzip|badzstd|garbage|truncated|oversize>
 //           evs=<letters|->   e empty data, d no data member, n no trace id, p trace owned by a peer,
 //                             l own trace (queue has room), f own trace (queue full), x probe
+//           ts=<letters|->    the time text of each event (batch: the member's "time"; /1/events: the
+//                             X-Honeycomb-Event-Time header): a absent, r RFC 3339, 0/3/6/9 epoch with
+//                             10/13/16/19 digits, s "0", t "12345", u "999999999", x "0x1f", f float text,
+//                             g garbage, e empty string.  msgpack batches carry a timestamp value (r) or none.
 // obs:  w=<H<code>|B<err|list:s:s..|empty|other>|G<grpc code>,…>  up=<i,…|-> peer=… coll=… ref=… cq=<in|peer|mixed|->
 //       (cq: the collector method the router called: AddSpan = in, AddSpanFromPeer = peer)
 //       (w: every WriteHeader/Write in order, net/http's implicit 200 made explicit; the other four:
@@ -337,7 +341,48 @@ func encode(enc string, v any) []byte {
 	return b
 }
 
-func nativeBody(ep, enc, evs string) []byte {
+// timeText is the time string of class c.
+func timeText(c byte) string {
+	switch c {
+	case 'r':
+		return "2024-05-06T07:08:09.123456789Z"
+	case '0':
+		return "1535589382"
+	case '3':
+		return "1535589382641"
+	case '6':
+		return "1535589382641123"
+	case '9':
+		return "1535589382641123456"
+	case 's':
+		return "0"
+	case 't':
+		return "12345"
+	case 'u':
+		return "999999999"
+	case 'x':
+		return "0x1f"
+	case 'f':
+		return "1535589382.641"
+	case 'g':
+		return "yesterday"
+	}
+	return ""
+}
+
+// withTime adds the member's time: a string in JSON, a timestamp value in msgpack.
+func withTime(m map[string]any, enc string, c byte) map[string]any {
+	switch {
+	case c == 'a':
+	case enc == "msgpack":
+		m["time"] = time.Date(2024, 5, 6, 7, 8, 9, 123456789, time.UTC)
+	default:
+		m["time"] = timeText(c)
+	}
+	return m
+}
+
+func nativeBody(ep, enc, evs, ts string) []byte {
 	if ep == "event" {
 		if evs[0] == 'e' {
 			return encode(enc, map[string]any{})
@@ -348,11 +393,11 @@ func nativeBody(ep, enc, evs string) []byte {
 	for i := 0; i < len(evs); i++ {
 		switch evs[i] {
 		case 'e':
-			batch = append(batch, map[string]any{"samplerate": 1, "data": map[string]any{}})
+			batch = append(batch, withTime(map[string]any{"samplerate": 1, "data": map[string]any{}}, enc, ts[i]))
 		case 'd':
-			batch = append(batch, map[string]any{"samplerate": 1})
+			batch = append(batch, withTime(map[string]any{"samplerate": 1}, enc, ts[i]))
 		default:
-			batch = append(batch, map[string]any{"samplerate": 1, "data": dataOf(evs[i], i)})
+			batch = append(batch, withTime(map[string]any{"samplerate": 1, "data": dataOf(evs[i], i)}, enc, ts[i]))
 		}
 	}
 	return encode(enc, batch)
@@ -558,11 +603,24 @@ func genOp(r *kit.Rng) string {
 	if es == "" {
 		es = "-"
 	}
+	// time texts: short numerics and the other shapes getEventTime distinguishes
+	tss := "-"
+	if native && n > 0 {
+		classes := "aaaaaaar0369stuxsstufge"
+		if ep == "batch" && enc == "msgpack" {
+			classes = "aar"
+		}
+		tb := make([]byte, n)
+		for i := range tb {
+			tb[i] = classes[r.Intn(len(classes))]
+		}
+		tss = string(tb)
+	}
 	rt := "incoming"
 	if !strings.HasPrefix(ep, "otlp-grpc") && r.Chance(45) {
 		rt = "peer"
 	}
-	return fmt.Sprintf("req rt=%s ep=%s via=%s enc=%s ct=%s ds=%s key=%s env=%s body=%s evs=%s", rt, ep, via, enc, ct, ds, key, env, body, es)
+	return fmt.Sprintf("req rt=%s ep=%s via=%s enc=%s ct=%s ds=%s key=%s env=%s body=%s evs=%s ts=%s", rt, ep, via, enc, ct, ds, key, env, body, es, tss)
 }
 
 func (comp) Gen(r *kit.Rng, maxLen int, tier string) kit.Case {
@@ -591,6 +649,13 @@ func (r *runner) Do(op []string) (string, bool) {
 	key, env, body, evs := kit.KV(op, "key"), kit.KV(op, "env"), kit.KV(op, "body"), kit.KV(op, "evs")
 	if evs == "-" {
 		evs = ""
+	}
+	ts := kit.KV(op, "ts")
+	if ts == "-" {
+		ts = ""
+	}
+	if ((ep == "event" || ep == "batch") && len(ts) != len(evs)) || (ep != "event" && ep != "batch" && ts != "") {
+		return "bad-op", true
 	}
 	rt := kit.KV(op, "rt")
 	native := ep == "event" || ep == "batch"
@@ -650,7 +715,7 @@ func (r *runner) Do(op []string) (string, bool) {
 			if enc == "msgpack" {
 				ctype = "application/msgpack"
 			}
-			good = nativeBody(ep, enc, evs)
+			good = nativeBody(ep, enc, evs, ts)
 		case "otlp-http-traces":
 			path, ctype, good = "/v1/traces", "application/protobuf", mustProto(traceReq(evs))
 		default:
@@ -668,6 +733,9 @@ func (r *runner) Do(op []string) (string, bool) {
 		}
 		if key != "none" {
 			req.Header.Set(types.APIKeyHeader, apiKey)
+		}
+		if ep == "event" && ts[0] != 'a' {
+			req.Header.Set(types.TimestampHeader, timeText(ts[0]))
 		}
 		rec := &recWriter{hdr: http.Header{}}
 		if via == "direct" {
